@@ -27,6 +27,7 @@ mod json;
 mod props;
 mod refchess;
 mod report;
+mod srch;
 mod universe;
 
 use std::time::Instant;
@@ -136,6 +137,7 @@ fn real_main(mut args: Vec<String>) -> i32 {
                 "C12" => props::c12::run(&tier, seed),
                 "C20" => props::c20::run(&tier, seed),
                 "C17" => props::c17::run(&tier, seed),
+                "C06" | "C18" => props::e3::run(prop, &tier, seed),
                 _ => {
                     out!("MACHINERY-ERROR: unknown property {}", prop);
                     return 2;
@@ -174,6 +176,7 @@ fn replay(path: &str, worker: bool) -> i32 {
             "c05-variant" | "c05-collision" => props::c05::replay(r),
             "c12-string" => props::c12::replay(r),
             "c17-string" => props::c17::replay(r),
+            "e3-word" => props::e3::replay(&prop, r),
             _ => Err(format!("unknown replay kind {:?}", kind)),
         }
     };
